@@ -402,11 +402,103 @@ def run_grammar(case):
                 stats=dict(elements_compared=compared, programs=1, not_well_founded_programs=int(not wf)), sample=d)
 
 
+BFS_PROGRAMS = [
+    # programs with once-used (auto-deleted) terms, start values, markers and recursion through products
+    (sA, mA, bA, sB, bB)
+    for sA in (0, None)
+    for mA, bA in ((None, "a2"), (None, "a5"), (None, "a8"), ("antihermitian", "a9"), (None, "a11"), ("hermitian", "a6"))
+    for sB in (0, "H_0")
+    for bB in ("b3", "b6", "b8", "b4")
+]
+
+
+def bfs_cases(tier):
+    return [dict(kind="bfs-program", prog=list(p), depth=2 if tier == "quick" else 3) for p in BFS_PROGRAMS]
+
+
+def run_bfs_program(case):
+    """Every request sequence up to the depth bound over all elements (order <= 1) of one program."""
+    from pymablock import algorithm_parsing
+    from pymablock.algorithm_parsing import series_computation
+    from pymablock.series import BlockSeries, one, zero
+    from sympy.physics.quantum import Dagger
+
+    from .. import statespace
+
+    sA, mA, bA, sB, bB = case["prog"]
+    sizes, nb, k = [1, 2], 2, 1
+    src = render(sA, mA, BODY_A[bA], sB, BODY_B[bB], ("A",))
+    Hv, E, off = make_H(nb, k, sizes)
+
+    def is_series(x):
+        return isinstance(x, BlockSeries) or getattr(x, "is_series_proxy", False)
+
+    def f(x, index):
+        v = x[index] if is_series(x) else x
+        if v is zero:
+            return zero
+        if v is one:
+            return 2 * np.eye(sizes[index[0]])
+        return 2 * v
+
+    scope = {"f": f}
+    ref = Interp(src, {"H": Hv}, scope, nb, k, zero, one, Dagger)
+    names = ref.names()
+    letters = [(name, (i, j, n)) for name in names for i in range(nb) for j in range(nb) for n in range(2)]
+    refval = {}
+    for el in letters:
+        try:
+            refval[el] = ("v", ref.elem(*el))
+        except (NotWellFounded, RecursionError):
+            refval[el] = ("nwf",)
+    func, fname = compile_program(src)
+
+    class W(statespace.World):
+        def __init__(self):
+            H = BlockSeries(eval=lambda *idx: Hv(idx), shape=(nb, nb), n_infinite=k, name="H")
+            self.series, _ = series_computation({"H": H}, algorithm=func, scope=dict(scope))
+            super().__init__(list(self.series.values()))
+
+    def request(world, letter):
+        name, idx = letter
+        try:
+            v = world.series[name][idx]
+        except RuntimeError:
+            world._last = ("exc",)
+            return "EXC:RuntimeError"
+        world._last = ("v", v)
+        return statespace.fingerprint(v)
+
+    def invariant(world, hist, letter, obs):
+        r = refval[letter]
+        if r[0] == "nwf":
+            return []
+        if world._last[0] == "exc":
+            return [f"{letter[0]}{list(letter[1])} raises RuntimeError although its definition is well-founded"]
+        if not same(world._last[1], r[1], zero, one):
+            return [f"{letter[0]}{list(letter[1])} differs from the direct interpretation after this history"]
+        return []
+
+    try:
+        res = statespace.bfs(W, letters, request, invariant, depthcap=case["depth"], validate_cap=60)
+    finally:
+        linecache.cache.pop(fname, None)
+        algorithm_parsing._parse_algorithm.cache_clear()
+    viol = [dict(what=f"{v['what']} [program {case['prog']} history={v['hist']}]", key=None) for v in res["violations"][:4]]
+    for h in res["conformance_errors"][:2]:
+        viol.append(dict(what=f"snapshot/restore nonconformance {h}", harness_error=True))
+    return dict(violations=viol, nontrivial=res["states"] > 10, outcome="bfs-program" + ("/ok" if not viol else "/violation"),
+                stats=dict(programs=1, bfs_states=res["states"], bfs_transitions=res["transitions"], elements_compared=res["transitions"]),
+                sample=dict(kind="bfs-program", prog=case["prog"], depth=case["depth"], states=res["states"], source=src))
+
+
 def cases(tier, seed):
-    return shipped_cases(tier) + grammar_cases(tier)
+    return shipped_cases(tier) + grammar_cases(tier) + bfs_cases(tier)
 
 
 def run_case(case):
     if case["kind"] == "shipped":
         return run_shipped(case)
+    if case["kind"] == "bfs-program":
+        return run_bfs_program(case)
     return run_grammar(case)
